@@ -255,7 +255,8 @@ def drive(recipe):
                   "impl_call": "SHT(%d): %s program on a %s %s vector" % (L, prog, recipe["vec"]["type"], kind),
                   "nontrivial": L >= 1}}
     try:
-        sht = SHT(L)
+        # a caller may choose the grid: any nphi >= 2L+1 and ntheta >= L+1 (odd or even) is an exact quadrature for the band limit
+        sht = SHT(L, nphi=recipe["grid"][0], ntheta=recipe["grid"][1]) if recipe.get("grid") else SHT(L)
     except Exception as e:                   # an exception of the implementation is an observation
         t["exc"] = type(e).__name__
         return t
@@ -445,6 +446,15 @@ def recipes_for(ctx):
                            "g1": sparse_spec(L, kind, rng, 1), "g2": sparse_spec(L, kind, rng, 1),
                            "k1": rng.choice([-3, -2, 2, 3]), "k2": rng.choice([-3, -2, 2, 3]),
                            "scale2": (0, -50, 40)[v % 3] if (L + v) % 2 else (-50, 0, 40)[v % 3], "single": (L + v) % 3 == 0})
+            # grids chosen by the caller: the smallest exact one (ntheta = L+1 is odd for even L) and a few roomier ones
+            for gk, (dphi, dth) in enumerate([(0, 0), (1, 1), (3, 2), (2, 3)][:2 if ctx.quick else 4]):
+                rs.append({"L": L, "kind": kind, "vec": sparse_spec(L, kind, rng, 6), "prog": "main", "seed": nxt(),
+                           "g1": sparse_spec(L, kind, rng, 1), "g2": sparse_spec(L, kind, rng, 1),
+                           "k1": rng.choice([-3, -2, 2, 3]), "k2": rng.choice([-3, -2, 2, 3]),
+                           "grid": [2 * L + 1 + dphi, L + 1 + dth]})
+                if gk == 0:
+                    rs.append({"L": L, "kind": kind, "vec": sparse_spec(L, kind, rng, 8), "prog": "eval", "seed": nxt(),
+                               "ne": 6, "grid": [2 * L + 1, L + 1]})
             if kind == "cplx" and L <= 20:
                 # a purely imaginary function (i times a real one) held in a complex array
                 rs.append({"L": L, "kind": kind, "vec": {"type": "ireal", "seed": nxt()}, "prog": "main", "seed": nxt(),
